@@ -993,3 +993,46 @@ mod tests {
     assert_eq!(round_tripped, payload, "gunzipped bytes must match source");
   }
 }
+
+// ===================================================================================
+// Verification hook (guarded, add-only): the private roller with an injectable clock.
+// Compiled only with `--cfg excsn_fibre_verif`; re-exported as `fibre_logging::verif`.
+// ===================================================================================
+#[cfg(excsn_fibre_verif)]
+pub mod verif {
+  use super::*;
+  use fibre::mpsc::BoundedSyncReceiver;
+
+  /// `CustomRoller` driven by a caller-supplied clock instead of `Utc::now()`.
+  pub struct Roller {
+    inner: CustomRoller,
+    errors: BoundedSyncReceiver<InternalErrorReport>,
+  }
+
+  impl Roller {
+    /// Same as the production constructor, at time `now`.
+    pub fn new_at(policy: RollingPolicyInternal, now: DateTime<Utc>) -> Result<Self> {
+      let (tx, rx) = fibre::mpsc::bounded::<InternalErrorReport>(1024);
+      let inner = CustomRoller::new_at_time(policy, now, Some(tx))?;
+      Ok(Self { inner, errors: rx })
+    }
+
+    /// One `Write::write` call performed at time `now`.
+    pub fn write_at(&mut self, buf: &[u8], now: DateTime<Utc>) -> std::io::Result<usize> {
+      self.inner.write_internal(buf, now)
+    }
+
+    pub fn flush(&mut self) -> std::io::Result<()> {
+      self.inner.flush()
+    }
+
+    /// Non-fatal I/O problems (cleanup / compression) reported so far.
+    pub fn take_errors(&mut self) -> Vec<String> {
+      let mut out = Vec::new();
+      while let Ok(r) = self.errors.try_recv() {
+        out.push(format!("{}: {}", r.source, r.error_message));
+      }
+      out
+    }
+  }
+}
